@@ -27,7 +27,7 @@ checks as they then stood: `seeded-logs/run-on-repo-2026-10-01b.log` — 201 rep
 `no-failing-input-found` on their first VIOLATION line; ONE early change, C05-dry-run-left-flip-order, was no longer reported:
 later generator changes had shifted the random stream away from the shape it needs — a family that produces that shape on
 purpose was added and the change is reported again, which is what re-running the whole collection is for; waves 7 and 8:
-`seeded-logs/run-on-repo-2026-10-01c.log` (30/30) and `…-01d.log` (22/22); wave 9: `…-01e.log`).
+`seeded-logs/run-on-repo-2026-10-01c.log` (30/30) and `…-01d.log` (22/22); wave 9: `…-01e.log` (6/6) and `…-01f.log` (8/8)).
 
 Lessons that changed the generators: operands must include (i) more than 65,536 nodes (needs the fast engine), (ii) more
 than 256 / 1024 variables and level gaps of exactly 63/64/65, (iii) same-shaped sub-diagrams on variables congruent
@@ -92,7 +92,9 @@ three misses each needed two consecutive calls whose arguments COLLIDE under a c
 under different variable counts (only the terminal records differ; C09 universe storms), (xlvii) `mk_sat_exactly_k` and
 `mk_sat_up_to_k` alternating on one variable list with rising thresholds (C16 threshold storms), (xlviii) projections of one
 operand over lists agreeing in length, smallest and largest entry and sum, or differing by order or one repeated entry (C03
-list storms). (The eight agents shared one `git stash` through their worktrees and popped each other's changes; every patch was
+list storms); the parser memo (C14) was caught by the first run through ONE program only, so C14 got regrouping storms as well
+(one sequence of names and operators parsed under several parenthesisations inside one program), after which it is reported
+by hundreds of cases. (The eight agents shared one `git stash` through their worktrees and popped each other's changes; every patch was
 therefore confirmed on its own by `tools/confirm_seeded.sh`, which starts from a clean checkout — later briefs must say
 `git diff > p; git checkout -- src; …; git apply p` instead of `git stash`.)
 First-run rates per wave: 80/100 (waves 1–2), 7/12, 19/30, 21/30, 26/30, 23/30, 21/22, 5/6 + 5/8.
